@@ -47,12 +47,13 @@ mod inner {
     }
 
     pub fn str_from_utf8(#[var_type([int])] array: &[Variable]) -> Option<String> {
+        // an element that is not a byte makes the array incorrect utf8
         let bytes = array
             .iter()
             .map(Variable::as_int)
             .map(Option::unwrap)
-            .map(|val| *val as u8)
-            .collect();
+            .map(|val| u8::try_from(*val).ok())
+            .collect::<Option<Vec<u8>>>()?;
         String::from_utf8(bytes).ok()
     }
 
